@@ -1248,12 +1248,10 @@ func mergeChunks(chunks []*MessageChunk) ([]byte, error) {
 	}
 
 	var b []byte
-	var seqnr uint32
-	for _, c := range chunks {
-		if c.SequenceHeader.SequenceNumber == seqnr {
+	for i, c := range chunks {
+		if i > 0 && c.SequenceHeader.SequenceNumber == chunks[i-1].SequenceHeader.SequenceNumber {
 			continue // duplicate chunk
 		}
-		seqnr = c.SequenceHeader.SequenceNumber
 		b = append(b, c.Data...)
 	}
 	return b, nil
